@@ -1429,7 +1429,7 @@ MODULES = {
     'numpy.linalg': {'norm': np_norm},
     'functools': {'partial': b_partial},
     'copy': {'copy': b_copy, 'deepcopy': b_deepcopy},
-    'sys': {}, 'os': {}, 'struct': {}, 'collections': {'Iterable': _TypeTag('Iterable', lambda x: isinstance(x, (list, tuple, NVec, str, dict, set)))},
+    'sys': {'version_info': (3, 12, 1)}, 'os': {}, 'struct': {}, 'collections': {'Iterable': _TypeTag('Iterable', lambda x: isinstance(x, (list, tuple, NVec, str, dict, set)))},
     'collections.abc': {'Iterable': _TypeTag('Iterable', lambda x: isinstance(x, (list, tuple, NVec, str, dict, set)))},
     'scipy.optimize': {'fsolve': sp_fsolve},
 }
